@@ -470,6 +470,7 @@ func (w *world) Run(t *rt.Tape, trace bool) *core.Result {
 		if rotBase {
 			smp.Base = "random OT (ot.ROT over Chou-Orlandi) as base OT"
 		}
+		dirtyBits := t.Choose(rt.SGen, 2) == 0
 		choices := make([][]bool, nb)
 		sent := make([][]ot.Label, nb)
 		recv := make([][]ot.Label, nb)
@@ -485,6 +486,12 @@ func (w *world) Run(t *rt.Tape, trace bool) *core.Result {
 			}
 			sentBits[i] = make([]uint64, (n+63)/64)
 			recvBits[i] = make([]uint64, (n+63)/64)
+			if dirtyBits {
+				// result buffers the caller has used before ("existing contents are overwritten")
+				for j := range sentBits[i] {
+					sentBits[i][j], recvBits[i][j] = uint64(t.Raw(rt.SGen, nil))*0x9e3779b97f4a7c15|1, ^uint64(0)
+				}
+			}
 		}
 		// the form of each batch: all label form or all packed-bit form (the scenario), or - one
 		// case in three with several batches - mixed on one sender/receiver pair
@@ -585,7 +592,7 @@ func (w *world) Run(t *rt.Tape, trace bool) *core.Result {
 							return
 						}
 					}
-					for j := n; j < len(recvBits[i])*64; j++ {
+					for j := n; j < len(recvBits[i])*64 && !dirtyBits; j++ {
 						if recvBits[i][j/64]>>(j%64)&1 == 1 || sentBits[i][j/64]>>(j%64)&1 == 1 {
 							failure = &core.Failure{Clause: "iknp-bit-overrun", Detail: fmt.Sprintf("packed-bit form, batch %d n=%d: bit %d beyond the count is set in a result buffer", i, n, j)}
 							res.Fail = failure
